@@ -222,3 +222,48 @@ Proof.
   unfold step_raw. destruct (find_op n (ops s)) as [[n0|n0 id|n0 w m p]|] eqn:F; try discriminate.
   intros _. exists n0. apply SrvC07.find_op_some in F. tauto.
 Qed.
+
+(** * the critical sections that may run stopLocked *)
+Definition stops (s s' : state) : Prop := running s = true /\ running s' = false.
+
+Lemma stops_dec s s' : stops s s' \/ ~ stops s s'.
+Proof.
+  unfold stops. destruct (running s), (running s'); auto; right; intros [A B]; discriminate.
+Qed.
+
+(* Stop on a stopped server only consumes the pending operation *)
+Lemma relstop_view s n s' os : step_raw s (LRelStop n) = Some (s', os) ->
+  (stops s s' /\ exists r, os = OClose :: r) \/ tasks s' = tasks s.
+Proof.
+  unfold step_raw. destruct (find_op n (ops s)) as [[n0|n0 id|n0 w m p]|]; try discriminate.
+  destruct (stop_locked SCStop (s <| ops ::= del_op n |>)) as [s0 os0] eqn:St. intros H. injection H as <- <-.
+  destruct (running s) eqn:Rn.
+  - left. apply SrvC08.stop_locked_run in St as [-> P]; [|exact Rn]. destruct P.
+    split; [split; auto|]. eexists. reflexivity.
+  - right. apply stop_locked_spec in St as [(_ & -> & _)|(Rn' & _)]; [reflexivity|cbn in Rn'; congruence].
+Qed.
+
+Lemma relread_err_view s c s' os : rd s = RHold (FErr c) -> step_raw s LRelRead = Some (s', os) ->
+  (stops s s' /\ exists r, os = OClose :: r) \/ tasks s' = tasks s.
+Proof.
+  intros Rd. unfold step_raw. rewrite Rd. intros H. injection H as H. cbn in H.
+  destruct (stop_locked c s) as [s0 os0] eqn:St. injection H as <- <-.
+  destruct (running s) eqn:Rn.
+  - left. apply SrvC08.stop_locked_run in St as [-> P]; [|exact Rn]. destruct P.
+    split; [split; auto|]. eexists. reflexivity.
+  - right. apply stop_locked_spec in St as [(_ & -> & _)|(Rn' & _)]; [reflexivity|congruence].
+Qed.
+
+(* the critical section that stops the server reports the close of the channel first *)
+Lemma raw_stop_obs s l s' os : inv s -> step_raw s l = Some (s', os) -> stops s s' -> exists r, os = OClose :: r.
+Proof.
+  intros I H [R1 R2]. destruct (raw_stop_view _ _ _ _ I H) as [(_ & X & _)|[(c & Sc & _)|(X & _)]]; try congruence.
+  destruct Sc as [n|c Rd].
+  - clear - H R1. unfold step_raw in H.
+    destruct (find_op n (ops s)) as [[n0|n0 id|n0 w m p]|]; try discriminate.
+    destruct (stop_locked SCStop (s <| ops ::= del_op n |>)) as [s0 os0] eqn:St. injection H as <- <-.
+    apply SrvC08.stop_locked_run in St as [-> _]; [|exact R1]. eexists. reflexivity.
+  - clear - H R1 Rd. unfold step_raw in H. rewrite Rd in H. injection H as H. cbn in H.
+    destruct (stop_locked c s) as [s0 os0] eqn:St. injection H as <- <-.
+    apply SrvC08.stop_locked_run in St as [-> _]; [|exact R1]. eexists. reflexivity.
+Qed.
